@@ -189,3 +189,11 @@ Section Dict.
   Definition dict_keys (d : dict) : list bytes := map fst d.
 End Dict.
 Arguments dict V : clear implicits.
+
+(* ---- Python slicing with a possibly negative bound: l[:n] and l[n:] ---- *)
+Definition py_slice_to {A} (n : Z) (l : list A) : list A :=
+  if (0 <=? n)%Z then firstn (Z.to_nat n) l
+  else firstn (Z.to_nat (Z.of_nat (length l) + n)) l.
+Definition py_slice_from {A} (n : Z) (l : list A) : list A :=
+  if (0 <=? n)%Z then skipn (Z.to_nat n) l
+  else skipn (Z.to_nat (Z.of_nat (length l) + n)) l.
